@@ -150,8 +150,14 @@ def finish(module, repo: Optional[Repo], res: Result, tier: str, seed: int, t0: 
         for e in res.errors:
             print(f"ANALYSIS-ERROR property={pid} {e}")
 
+    no_files = bool(os.environ.get("VERIF_NOEVIDENCE"))  # scratch runs (seeded changes) must not touch evidence/
     replay_paths = []
-    if violations and not res.errors:
+    if violations and not res.errors and no_files:
+        for i, (o, _) in enumerate(violations, 1):
+            print(f"{o['where']}  {o['rule']}  in {o['site']}\n    construct: {o['shown']}\n"
+                  f"    expected : {o['expected']}\n    found    : {o['found']}")
+            print(f"VIOLATION property={pid} replay=<not written: VERIF_NOEVIDENCE>")
+    if violations and not res.errors and not no_files:
         rdir = os.path.join(ev_dir, "replay")
         os.makedirs(rdir, exist_ok=True)
         for i, (o, _) in enumerate(violations, 1):
@@ -205,7 +211,7 @@ def finish(module, repo: Optional[Repo], res: Result, tier: str, seed: int, t0: 
         "wall_s": round(time.time() - t0, 3),
         "violations": len(violations) if not res.errors else 0,
     }
-    if replay is None:
+    if replay is None and not no_files:
         with open(os.path.join(ev_dir, f"{pid}.json"), "w") as f:
             json.dump(evidence, f, indent=1, sort_keys=False)
             f.write("\n")
